@@ -8,6 +8,7 @@ import Driver.MinerControl
 import Driver.Vesting
 import Driver.Init
 import Driver.MinerPenalty
+import Driver.Dispatch
 
 /-- generic stdin/stdout loop over a pure handler -/
 partial def loop {σ : Type} (h : IO.FS.Stream) (out : IO.FS.Stream) (step : σ → String → σ × String)
@@ -34,4 +35,5 @@ def main (args : List String) : IO UInt32 := do
   | ["vesting"] => loop stdin stdout Driver.Vesting.handle ({} : Driver.Vesting.St); return 0
   | ["init"] => loop stdin stdout Driver.Init.handle BA.Init.genesis; return 0
   | ["minerpenalty"] => loop stdin stdout Driver.MinerPenalty.handle (); return 0
+  | ["dispatch"] => loop stdin stdout Driver.Dispatch.handle (); return 0
   | _ => IO.eprintln "usage: driver <model>"; return 2
